@@ -220,7 +220,7 @@ theorem to_u16_val (v : Int) (hv : -32768 ≤ v ∧ v < 65536) : Gen.to_u16 v = 
   unfold Gen.to_u16
   have h1 : ¬ (v ≥ 65536) := by omega
   have h2 : ¬ (v < -32768) := by omega
-  by_cases h3 : v < 0 <;> simp [h1, h2, h3] <;> rfl
+  by_cases h3 : v < 0 <;> simp [h1, h2, h3] <;> first | rfl | exact congrArg Except.ok (by omega)
 
 theorem C03_convert_SET (d : Tok) (v : Int) (hv : -32768 ≤ v ∧ v < 65536) :
     Gen.convert .SET [d, .int v] =
